@@ -248,7 +248,7 @@ package ipfix
 //@     invariant rdr(d.reader) && d.reader.base == old(d.reader.base) && msg != nil && wellFormed(mem) && d.reader.count >= 16
 //@     invariant mhdrAt(msg.Header, d.reader.base, 0)
 //@     invariant len(msg.DataSets) <= d.reader.count
-//@     invariant forall i :: 0 <= i && i < len(decodeErrors) ==> decodeErrors[i] != nil
+//@     invariant forall q :: decodeErrors.off <= q && q < decodeErrors.off + len(decodeErrors) ==> decodeErrors.arr[q] != nil
 //@     decreases len(d.reader.data)
 
 //@ func combineErrors
